@@ -4,7 +4,7 @@
    MOut = the input left the model (an infinity, or a cell the column type cannot hold). *)
 From Coq Require Import ZArith QArith Qcanon List Bool String Permutation.
 From DM Require Import Base.PyVal Base.QcPy Spec.Nf Spec.Stats Gen.KCheck Gen.KStats Model.Stats
-  Proofs.StatsFacts Proofs.StatsRefine.
+  Proofs.StatsFacts Proofs.StatsRefine Proofs.StatsX.
 Import ListNotations.
 Open Scope Qc_scope.
 
@@ -160,6 +160,85 @@ Theorem C12_stats_kind_agree_int_float :
 Proof. exact int_float_agree. Qed.
 Print Assumptions C12_stats_kind_agree_int_float.
 
+(* ---- cells stored WITHOUT the column's type check (Spec/Stats.v xcell): `col @ f`, map_, a derived column inserted
+   by reference, and what <<, selections, slices, sorts copy from it.  A bool, a NumPy integer / floating scalar, a
+   Fraction / Decimal is a number and counts with its exact value. ------------------------------------------------- *)
+Theorem C12_x_checked_cells_are_a_special_case : forall cells,
+  xnums (map XV cells) = nums cells /\ xkeys (map XV cells) = keys cells /\ xin_scope (map XV cells) = in_scope cells.
+Proof. exact x_embeds. Qed.
+Print Assumptions C12_x_checked_cells_are_a_special_case.
+
+Theorem C12_x_number_whatever_type_carries_it : forall z b f,
+  xcell_q (XNpInt z) = xcell_q (XV (VInt z)) /\ xcell_q (XNpFlt b f) = xcell_q (XV (VFlt f)) /\
+  xcell_q (XBool true) = xcell_q (XV (VInt 1)) /\ xcell_q (XBool false) = xcell_q (XV (VInt 0)) /\
+  xcell_q (XRat (qz z)) = xcell_q (XV (VInt z)).
+Proof. exact xcell_q_types. Qed.
+Print Assumptions C12_x_number_whatever_type_carries_it.
+
+(* BaseColumn._numbers through the generated filter and conversion keeps exactly the numeric cells: also the NumPy
+   scalars and bools (a filter narrower than numbers.Number fails here) *)
+Theorem C12_x_numbers_refines :
+  forall cells, xin_scope cells = true -> forallb modelled cells = true ->
+    xm_nums cells = Some (xnums (map xfcast cells)).
+Proof. exact xm_nums_spec. Qed.
+Print Assumptions C12_x_numbers_refines.
+
+Theorem C12_x_stat_ignores_non_numeric :
+  forall s cells, xin_scope cells = true -> forallb modelled cells = true -> Forall xint_exact cells ->
+    xm_stat s cells = match s, xnums cells with Sum, [] => MNan | _, _ => lift (xcol_stat s cells) end.
+Proof. exact xm_stat_ignores_non_numeric. Qed.
+Print Assumptions C12_x_stat_ignores_non_numeric.
+
+Theorem C12_x_l1_refines_l0 :
+  forall k s cells, xin_scope cells = true ->
+    xl1_stat k s cells = MOut \/
+    xl1_stat k s cells =
+      match s, xnums (xseen k cells) with
+      | Sum, [] => match k, cells with KFloat, _ :: _ => MVal 0 | _, _ => MNan end
+      | _, _ => lift (xcol_stat s (xseen k cells))
+      end.
+Proof. exact xl1_stat_spec. Qed.
+Print Assumptions C12_x_l1_refines_l0.
+
+Theorem C12_x_stats_perm :
+  forall s cells cells', Permutation cells cells' -> xcol_stat s cells = xcol_stat s cells'.
+Proof. exact xcol_stat_perm. Qed.
+Print Assumptions C12_x_stats_perm.
+
+Theorem C12_x_spec_ignores_non_numeric :
+  forall s cells, xcol_stat s (filter is_number_xcell cells) = xcol_stat s cells.
+Proof. exact xcol_stat_ignores. Qed.
+Print Assumptions C12_x_spec_ignores_non_numeric.
+
+(* the MixedColumn holding unchecked cells agrees with the FloatColumn holding float() of them *)
+Theorem C12_x_kind_agree_mixed_float :
+  forall s cells, xin_scope cells = true -> forallb modelled cells = true ->
+    (s <> Sum \/ xnums (map xfcast cells) <> []) ->
+    xm_stat s cells = f_stat s (map xto_fl cells).
+Proof. exact xmixed_float_agree. Qed.
+Print Assumptions C12_x_kind_agree_mixed_float.
+
+Theorem C12_x_unique_oracle_sound :
+  forall cells u, xunique_ok cells u = true <-> xunique_spec cells u.
+Proof. exact xunique_ok_spec. Qed.
+Print Assumptions C12_x_unique_oracle_sound.
+
+Theorem C12_x_unique_spec_count :
+  forall cells u, xunique_spec cells u -> List.length (xkeys u) = List.length (xdistinct cells).
+Proof. exact xunique_spec_count. Qed.
+Print Assumptions C12_x_unique_spec_count.
+
+Theorem C12_x_unique_perm :
+  forall cells cells', Permutation cells cells' -> Permutation (xdistinct cells) (xdistinct cells').
+Proof. exact xdistinct_perm. Qed.
+Print Assumptions C12_x_unique_perm.
+
+Theorem C12_x_unique_model :
+  forall k cells, NoDup (umodel_list (xl1_unique k cells)) /\
+    forall x, In x (umodel_list (xl1_unique k cells)) <-> In x (xkeys cells).
+Proof. exact (fun k cells => conj (xl1_unique_nodup k cells) (xl1_unique_complete k cells)). Qed.
+Print Assumptions C12_x_unique_model.
+
 (* ---- non-vacuity (mres_eqb a b = true <-> a = b) ------------------------------------------------------------ *)
 Theorem C12_mres_eqb_eq : forall a b, mres_eqb a b = true <-> a = b.
 Proof. exact mres_eqb_eq. Qed.
@@ -186,4 +265,17 @@ Proof. vm_compute. reflexivity. Qed.
 Example C12_example_unique :
   unique_ok [VInt 5; VInt 1; VFlt FNan; VInt 5; VStr "a"; VNone] [VNone; VStr "a"; VInt 1; VFlt FNan; VInt 5] = true /\
   unique_ok [VInt 5; VInt 1; VFlt FNan; VInt 5] [VInt 1; VInt 5; VFlt FNan; VInt 5] = false.
+Proof. split; vm_compute; reflexivity. Qed.
+Definition ex_xcells : list xcell :=     (* np.int64(5) True 'x' Fraction(1, 2) np.float32(2.5) nan 3 *)
+  [XNpInt 5; XBool true; XV (VStr "x"); XRat (qc 1 2); XNpFlt false (FFin false 5 (-1)); XV (VFlt FNan); XV (VInt 3)].
+Example C12_example_unchecked_l0 :
+  xnums ex_xcells = [qz 5; qz 1; qc 1 2; qc 5 2; qz 3] /\
+  forallb (fun p : stat * Qc => match xcol_stat (fst p) ex_xcells with Some q => Qceqb q (snd p) | None => false end)
+    [(Mean, qc 12 5); (Median, qc 5 2); (Min, qc 1 2); (Max, qz 5); (Sum, qz 12); (Var, qc 127 40)] = true.
+Proof. split; vm_compute; reflexivity. Qed.
+Example C12_example_unchecked_l1 :       (* without the Fraction: the model keeps the NumPy scalars and the bool *)
+  forallb (fun p : stat * Qc => mres_eqb (xm_stat (fst p) [XNpInt 5; XBool true; XV (VStr "x"); XNpFlt false (FFin false 5 (-1))])
+                                         (MVal (snd p)))
+    [(Mean, qc 17 6); (Median, qc 5 2); (Min, qz 1); (Max, qz 5); (Sum, qc 17 2)] = true /\
+  xm_stat Mean ex_xcells = MOut.
 Proof. split; vm_compute; reflexivity. Qed.
